@@ -73,6 +73,12 @@ Model/Rel.vos Model/Rel.vok Model/Rel.required_vos: Model/Rel.v Model/Term.vos M
 Model/RelCheck.vo Model/RelCheck.glob Model/RelCheck.v.beautified Model/RelCheck.required_vo: Model/RelCheck.v Model/Term.vo Model/Unify.vo Model/TermCheck.vo Model/Rel.vo
 Model/RelCheck.vio: Model/RelCheck.v Model/Term.vio Model/Unify.vio Model/TermCheck.vio Model/Rel.vio
 Model/RelCheck.vos Model/RelCheck.vok Model/RelCheck.required_vos: Model/RelCheck.v Model/Term.vos Model/Unify.vos Model/TermCheck.vos Model/Rel.vos
+Model/Stream.vo Model/Stream.glob Model/Stream.v.beautified Model/Stream.required_vo: Model/Stream.v 
+Model/Stream.vio: Model/Stream.v 
+Model/Stream.vos Model/Stream.vok Model/Stream.required_vos: Model/Stream.v 
+Model/StreamCheck.vo Model/StreamCheck.glob Model/StreamCheck.v.beautified Model/StreamCheck.required_vo: Model/StreamCheck.v Model/Stream.vo
+Model/StreamCheck.vio: Model/StreamCheck.v Model/Stream.vio
+Model/StreamCheck.vos Model/StreamCheck.vok Model/StreamCheck.required_vos: Model/StreamCheck.v Model/Stream.vos
 Model/Loader.vo Model/Loader.glob Model/Loader.v.beautified Model/Loader.required_vo: Model/Loader.v 
 Model/Loader.vio: Model/Loader.v 
 Model/Loader.vos Model/Loader.vok Model/Loader.required_vos: Model/Loader.v 
@@ -169,3 +175,9 @@ Proofs/Rel.vos Proofs/Rel.vok Proofs/Rel.required_vos: Proofs/Rel.v Model/Term.v
 Props/C16.vo Props/C16.glob Props/C16.v.beautified Props/C16.required_vo: Props/C16.v Model/Term.vo Model/Unify.vo Model/Rel.vo Proofs/Unify.vo Proofs/Rel.vo
 Props/C16.vio: Props/C16.v Model/Term.vio Model/Unify.vio Model/Rel.vio Proofs/Unify.vio Proofs/Rel.vio
 Props/C16.vos Props/C16.vok Props/C16.required_vos: Props/C16.v Model/Term.vos Model/Unify.vos Model/Rel.vos Proofs/Unify.vos Proofs/Rel.vos
+Proofs/Stream.vo Proofs/Stream.glob Proofs/Stream.v.beautified Proofs/Stream.required_vo: Proofs/Stream.v Model/Stream.vo
+Proofs/Stream.vio: Proofs/Stream.v Model/Stream.vio
+Proofs/Stream.vos Proofs/Stream.vok Proofs/Stream.required_vos: Proofs/Stream.v Model/Stream.vos
+Props/C19.vo Props/C19.glob Props/C19.v.beautified Props/C19.required_vo: Props/C19.v Model/Stream.vo Proofs/Stream.vo
+Props/C19.vio: Props/C19.v Model/Stream.vio Proofs/Stream.vio
+Props/C19.vos Props/C19.vok Props/C19.required_vos: Props/C19.v Model/Stream.vos Proofs/Stream.vos
